@@ -11,7 +11,7 @@ import (
 
 func lockedCalls(r *simrt.Run, tier string) {
 	t := r.Tape
-	w := &world{r: r, active: map[string]*exec{}, t0: time.Now()}
+	w := newWorld(r)
 	ev := drawEnv(r, tier, false)
 	groups := make([]syncx.LockedCalls, ev.nGroups)
 	for i := range groups {
@@ -80,7 +80,12 @@ func lockedCalls(r *simrt.Run, tier string) {
 			r.Probe("waiter-on-stalled-key")
 		}
 	}
-	var tasks []*simrt.Task
+	if ev.churn != nil {
+		r.Probe("churn-lockedcalls")
+	}
+	quick := func(p *plan) { do(p, nil) }
+	ev.churnBefore(quick)
+	tasks := ev.churnStart(r, quick)
 	for i := 0; i < ev.nTasks; i++ {
 		i := i
 		tasks = append(tasks, r.Go(fmt.Sprintf("client%d", i), func() {
@@ -126,8 +131,8 @@ func lockedCalls(r *simrt.Run, tier string) {
 				continue
 			}
 			ok := false
-			for _, o := range w.execs {
-				if o != e && o.key == c.key && o.end != 0 && o.endT.Equal(e.startT) {
+			for _, o := range w.execsBy[c.key] {
+				if o != e && o.end != 0 && o.endT.Equal(e.startT) {
 					ok = true
 					break
 				}
